@@ -504,7 +504,8 @@ def _op():
                      st.one_of(st.none(), st.none(), _content), st.booleans())
     close = st.tuples(st.sampled_from(["h", "h", "x"]), st.integers(0, 1))
     rel = st.just(("r",))
-    return st.one_of(data, data, close, rel)
+    from stream_harness import weighted
+    return weighted((5, data), (2, close), (2, rel))
 
 
 def strategy(ctx):
